@@ -87,6 +87,18 @@ func (portHistWorld) Gen(seed uint64, tier string) core.Scenario {
 			op.Op = "closeOut"
 			m.outOpen = false
 		case 4:
+			if m.inOpen && r.Chance(1, 40) {
+				// a burst: stop and listen again N times in a row (counters that wrap)
+				op.Op = "relisten"
+				op.Ms = r.PickInt(3, 254, 255, 256, 257, 300)
+				if m.listener >= 0 {
+					m.stopped[m.listener] = true
+				}
+				m.listener = len(s.Ops)
+				listens = append(listens, len(s.Ops))
+				s.Ops = append(s.Ops, op)
+				continue
+			}
 			if m.listener >= 0 && !r.Chance(1, 8) {
 				// normally at most one listener; now and then a Listen while one is active:
 				// a driver may refuse it (error, nothing changes) or let it replace the old one
@@ -127,6 +139,12 @@ func (portHistWorld) Gen(seed uint64, tier string) core.Scenario {
 			if r.Chance(1, 5) {
 				k = r.Range(2, 3)
 			}
+			if r.Chance(1, 15) {
+				// a message the listener answers from inside the callback, depth times (echo / thru)
+				op.Data = core.Hex{0xBF, 0x70, byte(r.Range(1, 3))}
+				s.Ops = append(s.Ops, op)
+				continue
+			}
 			if r.Chance(1, 12) {
 				k = 0 // an empty chunk: nothing to deliver, but the port state still decides the result
 			}
@@ -163,6 +181,11 @@ func (s *PortHist) valid() bool {
 				return false
 			}
 			m.inOpen = false
+		case "relisten":
+			if !m.inOpen {
+				return false
+			}
+			m.listener = i
 		case "listen", "listenTo":
 			if op.Op == "listen" && !m.inOpen {
 				return false
@@ -170,7 +193,7 @@ func (s *PortHist) valid() bool {
 			m.inOpen = true
 			m.listener = i
 		case "stop":
-			if op.Ref < 0 || op.Ref >= i || (s.Ops[op.Ref].Op != "listen" && s.Ops[op.Ref].Op != "listenTo") {
+			if op.Ref < 0 || op.Ref >= i || (s.Ops[op.Ref].Op != "listen" && s.Ops[op.Ref].Op != "listenTo" && s.Ops[op.Ref].Op != "relisten") {
 				return false
 			}
 			if m.listener == op.Ref {
@@ -229,6 +252,7 @@ func (s *PortHist) Run(env *core.Env, st *core.Stats) (vs []core.Violation) {
 	}
 	type cbRec struct {
 		listener int
+		gen      int // "relisten" ops create several listeners under one id; only the last generation is alive
 		msg      []byte
 		atOp     int
 	}
@@ -251,6 +275,14 @@ func (s *PortHist) Run(env *core.Env, st *core.Stats) (vs []core.Violation) {
 		in, out := ins[0], outs[0]
 		m := portModel{listener: -1, stopped: map[int]bool{}}
 		stops := map[int]func(){}
+		lastGen := map[int]int{}
+		// echo: a listener answers the special control change BF 70 n (n > 0) with BF 70 n-1
+		// from inside the callback, on the loopback out port
+		echo := func(b []byte) {
+			if len(b) >= 3 && b[0] == 0xBF && b[1] == 0x70 && b[2] > 0 {
+				out.Send([]byte{0xBF, 0x70, b[2] - 1})
+			}
+		}
 		fail := func(clause, key, format string, a ...any) {
 			if viol == nil {
 				v := core.V(clause, key, format, a...)
@@ -316,6 +348,33 @@ func (s *PortHist) Run(env *core.Env, st *core.Stats) (vs []core.Violation) {
 					fail("idempotent-open-close", "closeOut", "op %d: out.Close() = %v", i, err)
 				}
 				m.outOpen = false
+			case "relisten":
+				st.Probe("relisten-burst")
+				id := i
+				if m.listener >= 0 {
+					stops[m.listener]()
+					m.stopped[m.listener] = true
+					m.listener = -1
+				}
+				var stop func()
+				for k := 0; k < op.Ms; k++ {
+					if stop != nil {
+						stop()
+					}
+					gen := k
+					var err error
+					stop, err = in.Listen(func(b []byte, ms int32) {
+						calls = append(calls, cbRec{listener: id, gen: gen, msg: append([]byte{}, b...), atOp: cur})
+						echo(b)
+					}, drivers.ListenConfig{})
+					if err != nil || stop == nil {
+						fail("listen-works", "listen-error", "op %d: Listen #%d of a stop/listen burst failed: %v", i, k, err)
+						return
+					}
+				}
+				lastGen[id] = op.Ms - 1
+				stops[id] = stop
+				m.listener = id
 			case "listen", "listenTo":
 				id := i
 				if len(m.stopped) > 0 {
@@ -326,10 +385,12 @@ func (s *PortHist) Run(env *core.Env, st *core.Stats) (vs []core.Violation) {
 				if op.Op == "listen" {
 					stop, err = in.Listen(func(b []byte, ms int32) {
 						calls = append(calls, cbRec{listener: id, msg: append([]byte{}, b...), atOp: cur})
+						echo(b)
 					}, drivers.ListenConfig{})
 				} else {
 					stop, err = midi.ListenTo(in, func(msg midi.Message, ms int32) {
 						calls = append(calls, cbRec{listener: id, msg: append([]byte{}, msg...), atOp: cur})
+						echo(msg)
 					})
 					m.inOpen = true
 				}
@@ -413,11 +474,25 @@ func (s *PortHist) Run(env *core.Env, st *core.Stats) (vs []core.Violation) {
 					}
 					// expected: exactly the messages of the chunk, to the active listener, during the call
 					rx := &ref.Rx{}
-					want := rx.Feed(op.Data, 0, 0)
+					var want []ref.RxMsg
+					for _, w := range rx.Feed(op.Data, 0, 0) {
+						want = append(want, w)
+						// the listener answers BF 70 n (n > 0) from inside the callback: the
+						// answers are delivered (synchronously, on the loopback) before the
+						// next message of the chunk
+						if len(w.Bytes) == 3 && w.Bytes[0] == 0xBF && w.Bytes[1] == 0x70 && w.Bytes[2] > 0 {
+							st.Probe("listener-answers-from-inside-the-callback")
+							for d := int(w.Bytes[2]) - 1; d >= 0; d-- {
+								want = append(want, ref.RxMsg{Bytes: []byte{0xBF, 0x70, byte(d)}})
+							}
+						}
+					}
 					{
 						var mine []cbRec
 						for _, g := range got {
-							if g.listener == m.listener {
+							if g.listener == m.listener && g.gen != lastGen[g.listener] {
+								fail("no-callback-after-stop", "callback-after-stop", "op %d: a listener of the stop/listen burst (#%d of %d) was called although its stop function has returned", i, g.gen, lastGen[g.listener]+1)
+							} else if g.listener == m.listener {
 								mine = append(mine, g)
 							} else if m.stopped[g.listener] {
 								fail("no-callback-after-stop", "callback-after-stop", "op %d: listener #%d was called although its stop function has returned", i, g.listener)
@@ -444,7 +519,7 @@ func (s *PortHist) Run(env *core.Env, st *core.Stats) (vs []core.Violation) {
 						}
 						w := want[k].Bytes
 						okm := bytes.Equal(g.msg, w)
-						if !okm && s.Ops[m.listener].Op == "listen" && len(g.msg) > len(w) && bytes.Equal(g.msg[:len(w)], w) {
+						if !okm && (s.Ops[m.listener].Op == "listen" || s.Ops[m.listener].Op == "relisten") && len(g.msg) > len(w) && bytes.Equal(g.msg[:len(w)], w) {
 							okm = true // raw driver callback pads 1-data-byte messages
 						}
 						if !okm {
